@@ -23,7 +23,7 @@ import coqemit as E
 
 ID = "C14"
 PROPS = "Props/C14.v"
-IMPORTS = "From Coq Require Import String.\nFrom PV Require Import Lib.Common Model.C14_Pheno Model.C14_Session."
+IMPORTS = "From Coq Require Import String.\nFrom PV Require Import Lib.Common Model.C14_Pheno Model.C14_Session Model.C14_Alias."
 SHARD = 40
 LEVEL_TEXT = ("Coq theorems over an exact-rational executable model of G_E_Phenotyping.phenotype (draw consumption order, env-major "
               "block concatenation, label columns incl. the generated TaxonNN/TraitN names), set_h2/set_H2 and "
@@ -35,12 +35,19 @@ LEVEL_TEXT = ("Coq theorems over an exact-rational executable model of G_E_Pheno
               "every one of the nenv environments in force at the call is simulated (also after nenv was reassigned); a state machine over (protocol parameters, "
               "genomic model, population) for sessions on one protocol object, with theorems that every call's table is a function of the state in force at that call and its draws only "
               "(no dependence on history) and satisfies the single-call statements for the labels, genotypes, coefficients and design in force. The model is tied to the code "
-              "by evaluating it inside Coq against the implementation's outputs on generated trials/tables and whole sessions")
+              "by evaluating it inside Coq against the implementation's outputs on generated trials/tables and whole sessions, and by 42 kernel expressions REGENERATED FROM THE SOURCE on every run "
+              "(Gen/C14_Kernel.v: the record formula and its association, the block labels env+1/rep+1, the loop headers zip(range(nenv), nrep)/range(env_nrep), the refusal test len(nrep) < nenv with the "
+              "call's argument order, which variance parameter scales which effect, the label columns, prefix/index/width of the generated TaxonNN/TraitN names in both protocols, (1-h2)/h2*var of both "
+              "heritability setters, the nenv setter's re-broadcast test and numpy.full arguments, the nrep/variance setters' numpy.full arguments, TruePhenotyping's group-column test, TrueBreedingValue's "
+              "argument, the estimate's group-by key test, dropna/as_index/aggregation function, both from_numpy argument lists and the hash join's key/destination/source) that are proved equal to the hand "
+              "model and about which the cell, calibration, re-broadcast and alignment theorems are restated (C14_kernel_*); scale covariance of the record formula and of the error variance; a small store model "
+              "of which label arrays a returned table shares with the population (G_E table isolated; TruePhenotyping table with explicit labels shares them: known finding)")
 LEVEL_NOTE = ("trusted: Coq kernel + vm_compute; pandas groupby/mean, numpy matmul/var and the scale/unscale round trip of the breeding "
               "value matrices are compared within 2^-30 relative tolerance against the exact rational (summation order not modelled); "
               "numpy.random.Generator.multivariate_normal is trusted (scripted as mean + z*sqrt(diag cov) by the harness generator): "
               "'realised variances converge' is only monitored with fixed seeds, not proved; theorems are about the Gallina model, "
-              "the tie to the code is differential on generated inputs")
+              "the tie to the code is differential on generated inputs plus the regenerated kernel expressions (translator harness/translate/c14_kernel.py, fail closed, trusted); "
+              "at scales below 1 the in-Coq comparison keeps its absolute tolerance 2^-30 (vacuous at 2^-40): there the independent predicate compares with a tolerance that shrinks with the scale")
 TECHNIQUE = "Coq proof over an executable exact-rational model; in-Coq vm_compute correspondence with the implementation; fixed-seed statistical monitor"
 RULE = ("case = trial (phased genotypes n in 1..12 incl. 10/11 for label widths, labels absent/unsorted/duplicated, groups absent/present, "
         "additive model with 1-2 fixed effects, nenv 1..3 (in 15% reassigned after construction to 1..nenv+2, for integer and array nrep: re-broadcast, truncation and refusal; 7 such designs always present), nrep scalar or per-environment, each variance None/scalar/array/zero, dyadic "
@@ -50,8 +57,14 @@ RULE = ("case = trial (phased genotypes n in 1..12 incl. 10/11 for label widths,
         "(one protocol object of either class, 2..4 calls interleaved with 1..3 operations each drawn from: in-place genotype / taxa (also a reordering of the same labels) / group update, "
         "another population object (same or other size), u_a / beta update, copy / deepcopy, nenv / nrep / variance assignments incl. invalid ones, set_h2 / set_H2 incl. invalid targets; "
         "14 fixed scripts always present); "
+        "every trial/session additionally draws: a scale 2^k (k in -40,-20,-8,0,10,20) for effects, fixed effects and standard deviations (zeros stay exact zeros), the route by which the population "
+        "(constructor / copy / deepcopy / select_taxa out of a larger population / mat-taxa-taxa_grp setters), the genomic model (constructor / deepcopy / coefficient setters), the protocol (constructor / "
+        "its copy() / deepcopy() methods / defaults + setters) and the estimator (constructor / setters, one object shared by both calls) are obtained, and whether miscout is passed; fixed corners: 130 taxa, 300 markers, "
+        "variance vectors mixing zeros and non-zeros at every scale, 8 aliasing probes; sessions reuse ONE estimator object reconfigured through its setters, replace the model object through the gpmod setter, copy through copy()/deepcopy(); "
+        "after every call the inputs are compared with their snapshot and the returned table / matrix is overwritten in place to see that no input follows; "
         "all from one PRNG; non-trivial = >= 2 taxa, >= 2 records for some taxon and a non-identity row permutation (session: >= 2 calls with a change of the configuration between them); distinct by SHA-256 of the case")
-TRUSTED = ["pandas DataFrame.groupby(sort=True, dropna=False).agg(mean) (modelled as sorted distinct keys + arithmetic mean, compared in tolerance regime T)",
+TRUSTED = ["harness/translate/c14_kernel.py (ast -> Gallina for the 42 kernel expressions; fail closed on any other statement shape) and the entry-point audit tables COVERED / SKIPPED / PARAMS of this module",
+           "pandas DataFrame.groupby(sort=True, dropna=False).agg(mean) (modelled as sorted distinct keys + arithmetic mean, compared in tolerance regime T)",
            "numpy.random.Generator.multivariate_normal for diagonal covariance (scripted as mean + z*sqrt(var)); distributional convergence only monitored",
            "DenseBreedingValueMatrix.from_numpy/unscale round trip (property C15) within 2^-30 relative",
            "DenseAdditiveLinearGenomicModel.gegv/gebv/var_A/var_G are modelled as Z@u_a + (beta[0] + mean-weighted other fixed effects) and population variance"]
@@ -122,10 +135,21 @@ def _est(rng, nrows, t, taxa, taxa_grp, force_gt=None):
     if rng.random() < 0.04: est["missing_col"] = True
     return est
 
-def _trial(rng, n=None, zero=None, small=False, auto=False, design=None):
+SCALES = [0, 0, 0, 0, 0, 0, -40, -20, -8, 10, 20]
+POP_ROUTES = ["ctor", "ctor", "deepcopy", "copy", "select", "setters"]
+MODEL_ROUTES = ["ctor", "ctor", "deepcopy", "setters"]
+PROTO_ROUTES = ["ctor", "ctor", "copy_m", "deepcopy_m", "setters"]
+
+def _scaled(x, f):
+    if x is None: return None
+    if isinstance(x, list): return [_scaled(v, f) for v in x]
+    return x * f
+
+def _trial(rng, n=None, zero=None, small=False, auto=False, design=None, p=None, scale_exp=None):
     m = rng.choice([1, 2, 2, 2, 4])
     if n is None: n = rng.choice([1, 1, 2, 2, 3, 3, 4, 5, 6]) if not small else rng.randint(1, 3)
-    p = rng.randint(1, 4); t = rng.randint(1, 3)
+    if p is None: p = rng.randint(1, 4)
+    t = rng.randint(1, 3)
     geno = [[[rng.randint(0, 1) for _ in range(p)] for _ in range(n)] for _ in range(m)]
     r = rng.random()
     if r < 0.2 or n > len(LABELS) or auto: taxa = None
@@ -142,8 +166,18 @@ def _trial(rng, n=None, zero=None, small=False, auto=False, design=None):
     nrep = rng.randint(1, 3) if rng.random() < 0.5 else [rng.randint(1, 3) for _ in range(nenv)]
     if design is not None: nenv, nrep = design[0], design[1]
     if zero is None: zero = rng.random() < 0.15
+    # scale: effects, fixed effects and standard deviations far from 1 (2^-40 .. 2^20, still dyadic: the exact regime applies);
+    # zero entries stay exact zeros next to the tiny non-zero ones
+    k = rng.choice(SCALES) if scale_exp is None else scale_exp
+    f = 2.0 ** k
+    beta, u = _scaled(beta, f), _scaled(u, f)
     case = {"kind": "trial", "geno": geno, "taxa": taxa, "taxa_grp": taxa_grp, "beta": beta, "u": u, "trait": trait,
-            "nenv": nenv, "nrep": nrep, "sd_env": _sd(rng, t, zero), "sd_rep": _sd(rng, t, zero), "sd_err": _sd(rng, t, zero)}
+            "nenv": nenv, "nrep": nrep, "sd_env": _scaled(_sd(rng, t, zero), f), "sd_rep": _scaled(_sd(rng, t, zero), f),
+            "sd_err": _scaled(_sd(rng, t, zero), f), "scale_exp": k,
+            # object lifecycle: how the population, the model and the protocol object are obtained; optional arguments
+            "routes": {"pop": rng.choice(POP_ROUTES), "model": rng.choice(MODEL_ROUTES), "proto": rng.choice(PROTO_ROUTES),
+                       "bv": rng.choice(["ctor", "setters"]), "bv_shared": rng.random() < 0.5},
+            "miscout": rng.random() < 0.4}
     if design is not None: case["nenv_set"] = design[2]
     elif rng.random() < 0.15:                                 # nenv reassigned after construction
         case["nenv_set"] = rng.randint(1, nenv + 2)
@@ -213,6 +247,26 @@ def gen_cases(rng, tier):
     # nenv reassigned after construction: integer / uniform array re-broadcast (raised, lowered), non-uniform array truncated, refused
     for design in ((1, 2, 3), (3, 1, 1), (2, [2, 2], 4), (3, [1, 2, 3], 2), (2, [1, 2], 3), (2, [2, 1], 4), (1, [3], 2)):
         cases.append(_trial(rng, small=True, design=design))
+    # more taxa / markers than a narrow integer type can count (labels of width 4; int8 genotypes summed over 300 markers),
+    # every scale with a variance vector mixing exact zeros and non-zeros
+    for n_, p_ in ((130, 2), (3, 300)) if quick else ((130, 2), (260, 3), (3, 300), (2, 600)):
+        c = _trial(rng, n=n_, p=p_, auto=(n_ > 12), design=(1, 1, None)); c.pop("nenv_set", None)
+        if n_ > 12:
+            c["h2"] = None; c["est"] = _est(rng, n_, len(c["u"][0]), None, c["taxa_grp"], force_gt=0.0); c["est"]["drop"] = []
+        cases.append(c)
+    for k_ in (-40, -20, 10, 20):
+        c = _trial(rng, small=True, scale_exp=k_)
+        t_ = len(c["u"][0]); f_ = 2.0 ** k_
+        c["sd_env"] = [0.0] + [1.5 * f_] * (t_ - 1) if t_ > 1 else 0.5 * f_
+        c["sd_rep"] = [2.0 * f_] + [0.0] * (t_ - 1)
+        cases.append(c)
+    # aliasing probes for the table of TruePhenotyping (explicit / generated labels, with / without groups)
+    for i_ in range(8 if quick else 40):
+        c = _trial(rng, small=True, auto=(i_ % 4 == 0)); c["alias_probe"] = True
+        if i_ % 4 == 1: c["taxa_grp"] = None
+        if i_ % 4 == 0 and i_ % 8 == 0: c["taxa_grp"] = None
+        c["est"] = _est(rng, len(c["geno"][0]) * sum(_design(c)[1] or list(c["nrep"])), len(c["u"][0]), c["taxa"], c["taxa_grp"])
+        cases.append(c)
     if not quick:
         c = _trial(rng, n=100, zero=True, auto=True); c["nenv"] = 1; c["nrep"] = 1
         t = len(c["u"][0]); c["draws"] = [[0.0] * t, [0.0] * t, [0.0] * (100 * t)]
@@ -286,6 +340,56 @@ def _perm(case, k):
     p = list(range(k)); _r.Random(case["est"]["perm_seed"]).shuffle(p)
     return p
 
+def _mk_pop(geno, taxa, grp, route="ctor"):
+    """the population object, obtained through the library's own routes: constructor, copy / deepcopy, a selection out of a larger
+    population (decoy taxa interleaved), or a differently filled object whose mat / taxa / taxa_grp are then assigned"""
+    from pybrops.popgen.gmat.DensePhasedGenotypeMatrix import DensePhasedGenotypeMatrix
+    g = numpy.array(geno, dtype="int8")
+    tx = None if taxa is None else numpy.array(taxa, dtype=object)
+    tg = None if grp is None else numpy.array(grp, dtype=int)
+    if route == "select":
+        m, n, p_ = g.shape
+        big = numpy.empty((m, 2 * n, p_), dtype="int8"); big[:, 0::2, :] = g; big[:, 1::2, :] = 1 - g
+        btx = None if tx is None else numpy.array([v for x in taxa for v in (x, "decoy_" + str(x))], dtype=object)
+        btg = None if tg is None else numpy.array([v for x in grp for v in (x, 9)], dtype=int)
+        return DensePhasedGenotypeMatrix(big, taxa=btx, taxa_grp=btg).select_taxa(list(range(0, 2 * n, 2)))
+    if route == "setters":
+        pg = DensePhasedGenotypeMatrix(numpy.zeros_like(g), taxa=None if tx is None else numpy.array(["old_" + str(x) for x in taxa], dtype=object),
+                                       taxa_grp=None if tg is None else numpy.zeros(len(grp), dtype=int))
+        pg.mat = g; pg.taxa = tx; pg.taxa_grp = tg
+        return pg
+    pg = DensePhasedGenotypeMatrix(g, taxa=tx, taxa_grp=tg)
+    if route == "deepcopy": return copy.deepcopy(pg)
+    if route == "copy": return copy.copy(pg)
+    return pg
+
+def _mk_model(beta, u, trait, route="ctor"):
+    from pybrops.model.gmod.DenseAdditiveLinearGenomicModel import DenseAdditiveLinearGenomicModel
+    b = numpy.array(beta, dtype=float); ua = numpy.array(u, dtype=float)
+    tr = None if trait is None else numpy.array(trait, dtype=object)
+    if route == "setters":
+        gm = DenseAdditiveLinearGenomicModel(beta=numpy.zeros_like(b), u_misc=None, u_a=numpy.ones_like(ua), trait=tr)
+        gm.beta = b; gm.u_a = ua
+        return gm
+    gm = DenseAdditiveLinearGenomicModel(beta=b, u_misc=None, u_a=ua, trait=tr)
+    return copy.deepcopy(gm) if route == "deepcopy" else gm
+
+def _mk_proto(gm, nenv, nrep, var_env, var_rep, var_err, rng, route="ctor"):
+    """G_E_Phenotyping through its constructor, its own copy() / deepcopy() methods, or built with defaults and then configured
+    through the setters (nenv first: the nrep setter checks against it)"""
+    from pybrops.breed.prot.pt.G_E_Phenotyping import G_E_Phenotyping
+    if route == "setters":
+        pt = G_E_Phenotyping(gm, rng=rng)
+        pt.nenv = nenv; pt.nrep = nrep; pt.var_env = var_env; pt.var_rep = var_rep; pt.var_err = var_err
+        return pt
+    pt = G_E_Phenotyping(gm, nenv=nenv, nrep=nrep, var_env=var_env, var_rep=var_rep, var_err=var_err, rng=rng)
+    if route == "copy_m": return pt.copy()
+    if route == "deepcopy_m": return pt.deepcopy()
+    return pt
+
+def _labels_snapshot(o):
+    return (None if o.taxa is None else [str(x) for x in o.taxa], None if o.taxa_grp is None else [int(x) for x in o.taxa_grp])
+
 def _run_estimate(case, df, tnames):
     """df: full base table (pandas). returns dict with the two outputs"""
     import pandas
@@ -311,12 +415,26 @@ def _run_estimate(case, df, tnames):
                                  taxa=None if g["taxa"] is None else numpy.array(g["taxa"], dtype=object),
                                  taxa_grp=None if g["taxa_grp"] is None else numpy.array(g["taxa_grp"], dtype=int))
     out = {"keep": keep, "perm": perm}
+    routes = case.get("routes", {})
+    def mkbv():
+        if routes.get("bv") == "setters":              # configured through the setters of an object built for other columns
+            bv = MeanPhenotypicBreedingValue("env", "rep", ["taxa"])
+            bv.taxa_col = "taxa"; bv.taxa_grp_col = gcol; bv.trait_cols = tcols
+            return bv
+        return MeanPhenotypicBreedingValue("taxa", gcol, tcols)
+    shared = [mkbv()] if routes.get("bv_shared") and not est.get("missing_col") else None    # ONE estimator object for both calls
     def one(tab):
         before = tab.copy(deep=True)
-        bv = MeanPhenotypicBreedingValue("taxa", gcol, tcols)
-        o = bv.estimate(tab, gt)
+        gt_before = None if gt is None else (_labels_snapshot(gt) if gt.taxa is not None else None, numpy.array(gt.mat, copy=True))
+        bv = shared[0] if shared else mkbv()
+        o = bv.estimate(tab, gt, miscout={}) if case.get("miscout") else bv.estimate(tab, gt)
         r = _canon_bv(o)
         r["input_unchanged"] = bool(before.equals(tab))
+        r["gt_unchanged"] = bool(gt is None or ((gt.taxa is None or _labels_snapshot(gt) == gt_before[0]) and numpy.array_equal(gt.mat, gt_before[1])))
+        # aliasing: the matrix of estimates is the caller's to overwrite; neither the table nor the genotype matrix' data may follow
+        o.mat[...] = 777.0
+        r["isolated"] = bool(before.equals(tab) and (gt is None or numpy.array_equal(gt.mat, gt_before[1])))
+        r["labels_shared_with_gt"] = bool(gt is not None and o.taxa is not None and gt.taxa is not None and numpy.shares_memory(o.taxa, gt.taxa))
         return r
     out["bv"] = _try(lambda: one(sub))
     out["bv_perm"] = _try(lambda: one(sub2))
@@ -339,11 +457,10 @@ def run_impl(case):
         df = pandas.DataFrame(d)
         return {"est": _run_estimate(case, df, tn)}
     geno = numpy.array(case["geno"], dtype="int8")
-    pg = DensePhasedGenotypeMatrix(geno, taxa=None if case.get("taxa") is None else numpy.array(case["taxa"], dtype=object),
-                                   taxa_grp=None if case.get("taxa_grp") is None else numpy.array(case["taxa_grp"], dtype=int))
+    routes = case.get("routes", {})
+    pg = _mk_pop(case["geno"], case.get("taxa"), case.get("taxa_grp"), routes.get("pop", "ctor"))
     t = len(case["u"][0])
-    gm = DenseAdditiveLinearGenomicModel(beta=numpy.array(case["beta"], dtype=float), u_misc=None, u_a=numpy.array(case["u"], dtype=float),
-                                         trait=None if case.get("trait") is None else numpy.array(case["trait"], dtype=object))
+    gm = _mk_model(case["beta"], case["u"], case.get("trait"), routes.get("model", "ctor"))
     nrep = case["nrep"] if isinstance(case["nrep"], int) else numpy.array(case["nrep"], dtype=int)
     if case["kind"] == "monitor":
         rng = numpy.random.Generator(numpy.random.PCG64(case["seed"]))
@@ -354,14 +471,17 @@ def run_impl(case):
         c = _canon_df(df)
         return {"df": {k: c[k] for k in ("cols", "nrow", "env", "rep", "tcols")}, "vals": df[c["tcols"]].to_numpy(dtype=float).tolist()}
     rng = Scripted(normals=copy.deepcopy(case["draws"]))
-    pt = G_E_Phenotyping(gm, nenv=case["nenv"], nrep=nrep, var_env=_var_arg(case["sd_env"], t), var_rep=_var_arg(case["sd_rep"], t),
-                         var_err=_var_arg(case["sd_err"], t), rng=rng)
+    pt = _mk_proto(gm, case["nenv"], nrep, _var_arg(case["sd_env"], t), _var_arg(case["sd_rep"], t), _var_arg(case["sd_err"], t), rng,
+                   routes.get("proto", "ctor"))
     if case.get("nenv_set") is not None: pt.nenv = case["nenv_set"]
     out = {}
     out["var_set"] = [[float(x).hex() for x in a] for a in (pt.var_env, pt.var_rep, pt.var_err)]
     out["nrep_attr"] = [int(x) for x in pt.nrep]
     geno_before = geno.copy()
-    df = _try(lambda: pt.phenotype(pg))
+    misc = {} if case.get("miscout") else None
+    labels_before = _labels_snapshot(pg)
+    model_before = (numpy.array(gm.u_a, copy=True), numpy.array(gm.beta, copy=True))
+    df = _try(lambda: pt.phenotype(pg, miscout=misc) if misc is not None else pt.phenotype(pg))
     if isinstance(df, dict):                                  # phenotype() raised: an observable
         out["df"] = df
         return out
@@ -369,8 +489,42 @@ def run_impl(case):
     out["left"] = len(rng.q["normal"])
     out["requests"] = [list(x[1]) for x in rng.log]
     out["geno_unchanged"] = bool(numpy.array_equal(pg.mat, geno_before))
-    out["true_df"] = _try(lambda: _canon_df(TruePhenotyping(gm).phenotype(pg)))
-    out["true_bv"] = _try(lambda: _canon_bv(TrueBreedingValue(gm).estimate(None, pg)))
+    def inputs_intact():
+        return bool(numpy.array_equal(pg.mat, geno_before) and _labels_snapshot(pg) == labels_before
+                    and numpy.array_equal(gm.u_a, model_before[0]) and numpy.array_equal(gm.beta, model_before[1]))
+    out["inputs_unchanged"] = inputs_intact()
+    def scribble(frame):
+        """overwrite every cell of a returned table in place (labels and values)"""
+        for j, c in enumerate(frame.columns):
+            for i in range(min(2, frame.shape[0])):
+                v = frame.iloc[i, j]
+                frame.iloc[i, j] = ("__mut__" if isinstance(v, str) else (None if v is None else type(v)(99)))
+    def true_part():
+        tp = TruePhenotyping(gm)
+        tdf = tp.phenotype(pg, miscout={}) if misc is not None else tp.phenotype(pg)
+        r = _canon_df(tdf)
+        r["var_err"] = [float(x) for x in tp.var_err]
+        raised = lambda x: isinstance(x, dict) and "exc" in x
+        r["set_H2_refused"] = raised(_try(lambda: tp.set_H2(0.5, pg)))
+        def ro(): tp.var_err = numpy.zeros(t)
+        r["var_err_readonly"] = raised(_try(ro))
+        r["inputs_unchanged"] = inputs_intact()
+        if not case.get("alias_probe"): return r
+        scribble(tdf)                                          # aliasing: a write into the returned table must not reach the population
+        r["isolated"] = inputs_intact()
+        if not r["isolated"]:                                   # put the labels back: the population is used again below
+            pg.taxa = None if labels_before[0] is None else numpy.array(labels_before[0], dtype=object)
+            pg.taxa_grp = None if labels_before[1] is None else numpy.array(labels_before[1], dtype=int)
+        return r
+    out["true_df"] = _try(true_part)
+    def truebv():
+        o = TrueBreedingValue(gm).estimate(None, pg, miscout={}) if misc is not None else TrueBreedingValue(gm).estimate(None, pg)
+        r = _canon_bv(o)
+        r["inputs_unchanged"] = inputs_intact()
+        o.mat[...] = 777.0
+        r["isolated"] = inputs_intact()
+        return r
+    out["true_bv"] = _try(truebv)
     if case.get("h2") is not None:
         h = case["h2"]; val = h["val"] if not isinstance(h["val"], list) else numpy.array(h["val"], dtype=float)
         def seth():
@@ -381,6 +535,8 @@ def run_impl(case):
         out["h2"] = _try(seth)
         out["true_seth"] = _try(lambda: TruePhenotyping(gm).set_h2(0.5, pg))
     out["est"] = _run_estimate(case, df, out["df"]["tcols"])
+    scribble(df)                                               # aliasing: a write into the returned table must not reach the inputs
+    out["isolated"] = inputs_intact()
     return out
 
 # ------------------------------------------------------------------ shared exact helpers (predicate side)
@@ -403,8 +559,16 @@ def _sdv(sd, t):
     if isinstance(sd, list): return [_F(s) for s in sd]
     return [_F(sd)] * t
 
+_UNIT = Fraction(1)          # set per case by pred(): 2^k for a case whose effects/variances are scaled by 2^k, k < 0 (else 1)
 def _close(a, b, tol=Fraction(1, 2 ** 28)):
-    return abs(a - b) <= tol * (1 + abs(b))
+    """|a-b| <= 2^-28 (unit + |b|): for cases at scale 1 or larger this is the usual tolerance; for cases scaled down by 2^k the
+    absolute part shrinks with them (otherwise every comparison at scale 2^-40 would be vacuous)"""
+    return abs(a - b) <= tol * (_UNIT + abs(b))
+
+def _set_unit(case):
+    global _UNIT
+    k = case.get("scale_exp", 0) or 0
+    _UNIT = Fraction(2) ** min(0, k)
 
 def _autolabels(prefix, n):
     w = math.ceil(math.log10(n)) + 1
@@ -442,6 +606,8 @@ def _pred_est(case, out, bad):
             continue
         if "exc" in o: bad.append("%s: estimate raised %s: %s" % (name, o["exc"], o["msg"])); continue
         if not o["input_unchanged"]: bad.append("%s: estimate modified the phenotype table" % name)
+        if not o.get("gt_unchanged", True): bad.append("%s: estimate modified the genotype matrix (labels or genotypes)" % name)
+        if not o.get("isolated", True): bad.append("aliasing %s: a write into the matrix of estimates changed the phenotype table or the genotype matrix" % name)
         if o["trait"] != [tnames[j] for j in tix]: bad.append("%s: trait labels %r" % (name, o["trait"]))
         def mean_of(sel):
             return [sum(r[2][j] for r in sel) / len(sel) for j in tix]
@@ -516,6 +682,7 @@ def pred(case, out):
     """the property, stated directly on the implementation's outputs (independent of the Coq model)"""
     if "exc" in out:
         return ["implementation raised %s: %s" % (out["exc"], out["msg"])]
+    _set_unit(case)
     bad = []
     if case["kind"] == "monitor":
         _pred_monitor(case, out, bad); return bad[:8]
@@ -577,6 +744,8 @@ def _pred_ge(case, out, nenv, reps, bad, approx_var=False):
                     row += 1
     if out["left"] != 0: bad.append("phenotype() left %d scripted draws unused" % out["left"])
     if not out["geno_unchanged"]: bad.append("phenotype() modified the genotype matrix")
+    if not out.get("inputs_unchanged", True): bad.append("phenotype() modified its inputs (genotypes, labels or model coefficients)")
+    if not out.get("isolated", True): bad.append("aliasing: a write into the table returned by phenotype() changed the population or the model")
     for nm, sd in zip(range(3), (case["sd_env"], case["sd_rep"], case["sd_err"])):
         want = [s * s for s in _sdv(sd, t)]
         got = [_fh(h) for h in out["var_set"][nm]]
@@ -596,6 +765,12 @@ def _pred_true(case, out, bad):
     if td is None: pass
     elif "exc" in td: bad.append("TruePhenotyping raised %s" % td["exc"])
     else:
+        if "var_err" in td:
+            if td["var_err"] != [0.0] * t: bad.append("TruePhenotyping.var_err is %r, not zero for each of the %d traits" % (td["var_err"], t))
+            if not td["set_H2_refused"]: bad.append("TruePhenotyping.set_H2 did not refuse")
+            if not td["var_err_readonly"]: bad.append("TruePhenotyping.var_err accepted an assignment")
+            if not td["inputs_unchanged"]: bad.append("TruePhenotyping.phenotype() modified its inputs")
+        if not td.get("isolated", True): bad.append(TP_ALIAS_CLAUSE)
         if td["cols"] != ["taxa"] + (["taxa_grp"] if grp is not None else []) + tnames: bad.append("TruePhenotyping columns %r" % td["cols"])
         if td["nrow"] != n or td["taxa"] != taxa or (grp is not None and td.get("taxa_grp") != grp): bad.append("TruePhenotyping: one labelled record per taxon expected")
         elif any(v is None or not _close(_fh(v), gv[i][j]) for i in range(n) for j, v in enumerate(td["vals"][i])): bad.append("TruePhenotyping value is not the true genotypic value")
@@ -603,6 +778,8 @@ def _pred_true(case, out, bad):
     if tb is None: pass
     elif "exc" in tb: bad.append("TrueBreedingValue raised %s" % tb["exc"])
     else:
+        if not tb.get("inputs_unchanged", True): bad.append("TrueBreedingValue.estimate() modified its inputs")
+        if not tb.get("isolated", True): bad.append("aliasing: a write into the matrix returned by TrueBreedingValue.estimate() changed the population or the model")
         if tb["taxa"] != case["taxa"] or tb["taxa_grp"] != grp or tb["trait"] != case["trait"]: bad.append("TrueBreedingValue labels")
         if len(tb["mat"]) != n or any(v is None or not _close(_fh(v), gv[i][j]) for i in range(n) for j, v in enumerate(tb["mat"][i])): bad.append("TrueBreedingValue is not the true value")
 
@@ -636,10 +813,16 @@ def _dedupe(bad):
     return seen[:10]
 
 # ------------------------------------------------------------------ known findings
+TP_ALIAS_CLAUSE = ("aliasing: a write into the table returned by TruePhenotyping.phenotype() changed the labels of the population "
+                   "(the taxa column is the population's own array)")
 def classify(case, out, clauses):
-    """no defect of this property is excused any more (C14-join-ignores-group, C14-stale-nrep-after-nenv,
-    C14-short-nrep-fewer-environments and C14-null-group-drops-records are repaired; their witnesses are re-run as
-    `fixed` entries of known_findings.d/C14.json)"""
+    """C14-join-ignores-group, C14-stale-nrep-after-nenv, C14-short-nrep-fewer-environments and C14-null-group-drops-records are
+    repaired (their witnesses are re-run as `fixed` entries of known_findings.d/C14.json).  One finding is recorded, not repaired:
+    C14-truepheno-table-shares-labels -- only for the dedicated probe cases (`alias_probe`), only when the population has explicit
+    taxa labels, and only when that clause is the ONLY failure of the case."""
+    if (case.get("kind") == "trial" and case.get("alias_probe") and case.get("taxa") is not None
+            and clauses and all(c == TP_ALIAS_CLAUSE for c in clauses)):
+        return "C14-truepheno-table-shares-labels"
     return None
 
 # ------------------------------------------------------------------ evidence helpers
@@ -751,6 +934,8 @@ def emit_case(case, out):
         parts.append("true_agree %s (true_rows %d taxa grp gvm)" % (E.lst([(td["taxa"][i], tg[i], [Fraction(float.fromhex(h)) for h in td["vals"][i]])
                                                                            for i in range(td["nrow"])], _trow), n))
         parts.append("sl_eqb %s (true_cols grp tnames)" % E.lst(td["cols"], E.s))
+        if "isolated" in td:                                   # aliasing probe: the model says when the table shares the population's label arrays
+            parts.append("Bool.eqb %s (negb (tp_table_shares taxa grp))" % E.b(td["isolated"]))
     tb = out["true_bv"]
     if "exc" in tb: parts.append("false")
     else:
@@ -875,15 +1060,17 @@ def _session(rng, cls=None, script=None):
     if cls is None: cls = "GE" if rng.random() < 0.75 else "True"
     geno, taxa, grp = _rand_pop(rng, p)
     nfixed = 1 if rng.random() < 0.75 else 2
-    newmat = lambda rows: [[_grid(rng) for _ in range(t)] for _ in range(rows)]
-    case = {"kind": "session", "pop": {"geno": geno, "taxa": taxa, "taxa_grp": grp},
+    kexp = rng.choice(SCALES); f = 2.0 ** kexp                      # the whole session lives at scale 2^kexp (effects, variances)
+    newmat = lambda rows: [[_grid(rng) * f for _ in range(t)] for _ in range(rows)]
+    case = {"kind": "session", "scale_exp": kexp, "routes": {"pop": rng.choice(POP_ROUTES), "model": rng.choice(MODEL_ROUTES), "proto": rng.choice(PROTO_ROUTES)},
+            "pop": {"geno": geno, "taxa": taxa, "taxa_grp": grp},
             "model": {"beta": newmat(nfixed), "u": newmat(p), "trait": None if rng.random() < 0.25 else rng.sample(TRAITS, t)},
             "proto": {"cls": cls}}
     if cls == "GE":
         nenv = rng.choice([1, 1, 2, 2, 3])
         zero = rng.random() < 0.3
         case["proto"].update({"nenv": nenv, "nrep": rng.randint(1, 2) if rng.random() < 0.6 else [rng.randint(1, 2) for _ in range(nenv)],
-                              "sd_env": _sd(rng, t, zero), "sd_rep": _sd(rng, t, zero), "sd_err": _sd(rng, t, zero)})
+                              "sd_env": _scaled(_sd(rng, t, zero), f), "sd_rep": _scaled(_sd(rng, t, zero), f), "sd_err": _scaled(_sd(rng, t, zero), f)})
     st = _sess_init(case)
     mutators = ["set_geno", "set_geno", "set_taxa", "set_taxa", "set_grp", "new_pop", "set_u", "set_u", "set_beta", "copy", "set_h2"]
     if cls == "GE": mutators += ["set_nenv", "set_nrep", "set_var", "set_var", "set_h2"]
@@ -917,9 +1104,11 @@ def _session(rng, cls=None, script=None):
         elif k == "set_grp": op["taxa_grp"] = _rand_grp(rng, n)
         elif k == "new_pop":
             op["geno"], op["taxa"], op["taxa_grp"] = _rand_pop(rng, p, n if rng.random() < 0.4 else None)
-        elif k == "set_u": op["u"] = newmat(p)
-        elif k == "set_beta": op["beta"] = newmat(len(st["beta"]))
-        elif k == "copy": op["deep"] = rng.random() < 0.5
+            op["route"] = rng.choice(POP_ROUTES)
+        # "via": "gpmod" = a NEW model object with these coefficients is assigned through the protocol's gpmod setter
+        elif k == "set_u": op["u"] = newmat(p); op["via"] = rng.choice(["attr", "attr", "gpmod"])
+        elif k == "set_beta": op["beta"] = newmat(len(st["beta"])); op["via"] = rng.choice(["attr", "attr", "gpmod"])
+        elif k == "copy": op["deep"] = rng.random() < 0.5; op["method"] = rng.random() < 0.5      # copy.copy(pt) or pt.copy()
         elif k == "set_nenv": op["nenv"] = rng.choice([0, 1, 1, 2, 2, 3, 3, 4])
         elif k == "set_nrep":
             r = rng.random()
@@ -927,7 +1116,7 @@ def _session(rng, cls=None, script=None):
             else: op["nrep"] = [rng.randint(1, 3) for _ in range(st["nenv"] if r < 0.85 else st["nenv"] + 1)]
         elif k == "set_var":
             op["which"] = rng.choice(["env", "rep", "err"])
-            sd = _sd(rng, t, rng.random() < 0.3)
+            sd = _scaled(_sd(rng, t, rng.random() < 0.3), f)
             if isinstance(sd, list) and rng.random() < 0.1: sd = sd + [1.0]
             op["sd"] = sd
         elif k == "set_h2":
@@ -967,20 +1156,20 @@ def _run_session(case):
     from pybrops.breed.prot.pt.TruePhenotyping import TruePhenotyping
     from pybrops.breed.prot.bv.TrueBreedingValue import TrueBreedingValue
     from pybrops.breed.prot.bv.MeanPhenotypicBreedingValue import MeanPhenotypicBreedingValue
-    def mkpop(g, taxa, grp):
-        return DensePhasedGenotypeMatrix(numpy.array(g, dtype="int8"), taxa=None if taxa is None else numpy.array(taxa, dtype=object),
-                                         taxa_grp=None if grp is None else numpy.array(grp, dtype=int))
-    pg = mkpop(case["pop"]["geno"], case["pop"]["taxa"], case["pop"]["taxa_grp"])
+    routes = case.get("routes", {})
+    pg = _mk_pop(case["pop"]["geno"], case["pop"]["taxa"], case["pop"]["taxa_grp"], routes.get("pop", "ctor"))
     md = case["model"]; t = len(md["u"][0])
-    gm = DenseAdditiveLinearGenomicModel(beta=numpy.array(md["beta"], dtype=float), u_misc=None, u_a=numpy.array(md["u"], dtype=float),
-                                         trait=None if md["trait"] is None else numpy.array(md["trait"], dtype=object))
+    gm = _mk_model(md["beta"], md["u"], md["trait"], routes.get("model", "ctor"))
     pr = case["proto"]; ge = pr["cls"] == "GE"
     rng = Scripted(normals=[])
     if ge:
-        pt = G_E_Phenotyping(gm, nenv=pr["nenv"], nrep=pr["nrep"] if isinstance(pr["nrep"], int) else numpy.array(pr["nrep"], dtype=int),
-                             var_env=_var_arg(pr["sd_env"], t), var_rep=_var_arg(pr["sd_rep"], t), var_err=_var_arg(pr["sd_err"], t), rng=rng)
-    else: pt = TruePhenotyping(gm)
+        pt = _mk_proto(gm, pr["nenv"], pr["nrep"] if isinstance(pr["nrep"], int) else numpy.array(pr["nrep"], dtype=int),
+                       _var_arg(pr["sd_env"], t), _var_arg(pr["sd_rep"], t), _var_arg(pr["sd_err"], t), rng, routes.get("proto", "ctor"))
+    else:
+        pt = TruePhenotyping(gm)
+        if routes.get("proto") in ("copy_m", "deepcopy_m"): pt = pt.copy() if routes["proto"] == "copy_m" else pt.deepcopy()
     del gm                                                     # from here on the model is reached through the protocol only
+    bvobj = [None]                                             # ONE estimator object for the whole session, reconfigured through its setters
     outs = []
     for op in case["steps"]:
         k = op["op"]; o = {}
@@ -998,7 +1187,10 @@ def _run_session(case):
                 o["left"] = len(rng.q["normal"]) if ge else 0
                 o["true_bv"] = _try(lambda: _canon_bv(TrueBreedingValue(pt.gpmod).estimate(None, pg)))
                 e = op["est"]; tn = o["df"]["tcols"]
-                bv = MeanPhenotypicBreedingValue("taxa", "taxa_grp" if e["grp"] else None, [tn[j] for j in e["traits"]])
+                if bvobj[0] is None: bvobj[0] = MeanPhenotypicBreedingValue("taxa", "taxa_grp" if e["grp"] else None, [tn[j] for j in e["traits"]])
+                else:
+                    bvobj[0].taxa_grp_col = "taxa_grp" if e["grp"] else None; bvobj[0].trait_cols = [tn[j] for j in e["traits"]]
+                bv = bvobj[0]
                 def est():
                     keep = df.copy(deep=True)
                     r = _canon_bv(bv.estimate(df, pg if e["gt"] else None))
@@ -1012,10 +1204,17 @@ def _run_session(case):
                 if k == "set_geno": pg.mat = numpy.array(op["geno"], dtype="int8")
                 elif k == "set_taxa": pg.taxa = None if op["taxa"] is None else numpy.array(op["taxa"], dtype=object)
                 elif k == "set_grp": pg.taxa_grp = None if op["taxa_grp"] is None else numpy.array(op["taxa_grp"], dtype=int)
-                elif k == "new_pop": pg = mkpop(op["geno"], op["taxa"], op["taxa_grp"])
+                elif k == "new_pop": pg = _mk_pop(op["geno"], op["taxa"], op["taxa_grp"], op.get("route", "ctor"))
+                elif k in ("set_u", "set_beta") and op.get("via") == "gpmod":
+                    old = pt.gpmod
+                    pt.gpmod = _mk_model(op["beta"] if k == "set_beta" else numpy.array(old.beta, copy=True),
+                                         op["u"] if k == "set_u" else numpy.array(old.u_a, copy=True),
+                                         None if old.trait is None else [str(x) for x in old.trait])
                 elif k == "set_u": pt.gpmod.u_a = numpy.array(op["u"], dtype=float)
                 elif k == "set_beta": pt.gpmod.beta = numpy.array(op["beta"], dtype=float)
-                elif k == "copy": pt = _copy.deepcopy(pt) if op["deep"] else _copy.copy(pt)
+                elif k == "copy":
+                    if op.get("method"): pt = pt.deepcopy() if op["deep"] else pt.copy()
+                    else: pt = _copy.deepcopy(pt) if op["deep"] else _copy.copy(pt)
                 elif k == "set_nenv": pt.nenv = op["nenv"]
                 elif k == "set_nrep": pt.nrep = op["nrep"] if isinstance(op["nrep"], int) else numpy.array(op["nrep"], dtype=int)
                 elif k == "set_var": setattr(pt, "var_" + op["which"], _var_arg(op["sd"], t))
@@ -1125,3 +1324,68 @@ def _emit_session(case, out):
         checks.append("done_agree %s %s" % (E.b("exc" in o), get % (i, "(OH2 [])")))
     return ("(let s0 := %s in\n  let ops := [%s] in\n  let outs := run s0 ops in\n  %s)"
             % (s0, ";\n    ".join(ops), "\n   && ".join(checks)))
+
+
+# ================================================================== kernel expressions regenerated from the source
+# ================================================================== entry points of the anchored modules (fail closed)
+# every public class / method / property / parameter of the four anchored modules is either driven by this module or listed in
+# SKIPPED with the reason; a name that is in neither table makes the check fail until it is classified
+ANCHORED = {"pybrops.breed.prot.pt.G_E_Phenotyping": "G_E_Phenotyping", "pybrops.breed.prot.pt.TruePhenotyping": "TruePhenotyping",
+            "pybrops.breed.prot.bv.MeanPhenotypicBreedingValue": "MeanPhenotypicBreedingValue", "pybrops.breed.prot.bv.TrueBreedingValue": "TrueBreedingValue"}
+COVERED = {
+    "G_E_Phenotyping": {"__init__": "trials/sessions (every parameter, scalar / array / None forms)", "__copy__": "sessions (copy.copy)", "__deepcopy__": "sessions (copy.deepcopy)",
+                        "copy": "proto route copy_m, session copies", "deepcopy": "proto route deepcopy_m, session copies", "gpmod": "sessions (getter; setter with a new model object)",
+                        "nenv": "trials (nenv_set), sessions, proto route setters", "nrep": "sessions, proto route setters", "var_env": "setter/getter everywhere",
+                        "var_rep": "setter/getter everywhere", "var_err": "setter/getter everywhere; set_h2", "phenotype": "every trial/session (with and without miscout)",
+                        "set_h2": "trials, sessions", "set_H2": "trials, sessions"},
+    "TruePhenotyping": {"__init__": "trials/sessions", "__copy__": "sessions", "__deepcopy__": "sessions", "copy": "sessions (method)", "deepcopy": "sessions (method)",
+                        "gpmod": "sessions", "var_err": "trials (zeros per trait; read-only)", "phenotype": "every trial / True sessions", "set_h2": "trials (refusal)", "set_H2": "trials (refusal)"},
+    "MeanPhenotypicBreedingValue": {"__init__": "every estimate (str / list trait_cols, with / without group column)", "taxa_col": "bv route setters", "taxa_grp_col": "bv route setters, sessions",
+                                    "trait_cols": "bv route setters, sessions", "estimate": "every trial/table/session (with/without gtobj, miscout)"},
+    "TrueBreedingValue": {"__init__": "trials/sessions", "gpmod": "constructor", "estimate": "trials/sessions (ptobj None, with/without miscout)"},
+}
+SKIPPED = {
+    "G_E_Phenotyping.to_hdf5": "persistence round trips are property C16's check", "G_E_Phenotyping.from_hdf5": "persistence round trips are property C16's check",
+    "TruePhenotyping.to_hdf5": "persistence round trips are property C16's check", "TruePhenotyping.from_hdf5": "persistence round trips are property C16's check",
+    "G_E_Phenotyping.rng": "set through the constructor with the scripted generator (shared by copies: observed through the draw log); generator isolation is property C08",
+}
+PARAMS = {   # parameters driven (others: self, cls, kwargs = unused catch-all)
+    "G_E_Phenotyping.__init__": {"gpmod", "nenv", "nrep", "var_env", "var_rep", "var_err", "rng"}, "G_E_Phenotyping.__deepcopy__": {"memo"}, "G_E_Phenotyping.deepcopy": {"memo"},
+    "G_E_Phenotyping.phenotype": {"pgmat", "miscout"}, "G_E_Phenotyping.set_h2": {"h2", "pgmat"}, "G_E_Phenotyping.set_H2": {"H2", "pgmat"},
+    "TruePhenotyping.__init__": {"gpmod"}, "TruePhenotyping.__deepcopy__": {"memo"}, "TruePhenotyping.deepcopy": {"memo"}, "TruePhenotyping.phenotype": {"pgmat", "miscout"},
+    "TruePhenotyping.set_h2": {"h2", "pgmat"}, "TruePhenotyping.set_H2": {"H2", "pgmat"},
+    "MeanPhenotypicBreedingValue.__init__": {"taxa_col", "taxa_grp_col", "trait_cols"}, "MeanPhenotypicBreedingValue.estimate": {"ptobj", "gtobj", "miscout"},
+    "TrueBreedingValue.__init__": {"gpmod"}, "TrueBreedingValue.estimate": {"ptobj", "gtobj", "miscout"},
+}
+def audit_entry_points():
+    import importlib, inspect
+    problems = []
+    for modname, clsname in ANCHORED.items():
+        mod = importlib.import_module(modname)
+        for name, obj in vars(mod).items():
+            if name.startswith("_") or getattr(obj, "__module__", None) != modname: continue
+            if not inspect.isclass(obj) or name != clsname:
+                if "%s.%s" % (modname, name) not in SKIPPED and not name.startswith("check_is_"):
+                    problems.append("unclassified public name %s.%s" % (modname, name))
+                continue
+            for k, v in vars(obj).items():
+                if k.startswith("_") and k not in ("__init__", "__copy__", "__deepcopy__"): continue
+                full = "%s.%s" % (clsname, k)
+                if k not in COVERED.get(clsname, {}) and full not in SKIPPED:
+                    problems.append("unclassified member %s" % full); continue
+                fn = v.__func__ if isinstance(v, (classmethod, staticmethod)) else v
+                if inspect.isfunction(fn) and full not in SKIPPED:
+                    ps = set(inspect.signature(fn).parameters) - {"self", "cls", "kwargs"}
+                    if ps != PARAMS.get(full, set()):
+                        problems.append("parameters of %s are %s, the drivers know %s" % (full, sorted(ps), sorted(PARAMS.get(full, set()))))
+            for k in COVERED.get(clsname, {}):
+                if k not in vars(obj): problems.append("%s.%s no longer exists" % (clsname, k))
+    if problems:
+        raise RuntimeError("entry-point audit of the anchored modules: " + "; ".join(problems))
+    return {"file": "(entry-point audit)", "covered": sum(len(v) for v in COVERED.values()), "skipped": len(SKIPPED)}
+
+def translate(repo, gen_dir):
+    """regenerate Gen/C14_Kernel.v (kernel expressions of phenotype / set_h2 / set_H2 / the setters / both estimate methods) from
+    the current source; fail closed"""
+    from translate import c14_kernel
+    return [c14_kernel.translate(repo, gen_dir), audit_entry_points()]
